@@ -3,12 +3,13 @@ from __future__ import annotations
 
 import asyncio
 import copy
+import datetime
 import math
 import random
 from concurrent.futures import ThreadPoolExecutor
 from typing import Any, Dict, Iterator, List
 
-from taskiq import Context, TaskiqDepends, TaskiqMiddleware
+from taskiq import Context, ScheduleSource, TaskiqDepends, TaskiqMiddleware
 from taskiq.acks import AcknowledgeType
 from taskiq.middlewares.retry_middleware import SimpleRetryMiddleware
 
@@ -69,7 +70,8 @@ def gen_c09_spec(rng: random.Random) -> Dict[str, Any]:
     shared = rng.random() < 0.2
     ops = []
     for i in range(rng.randint(2, 8)):
-        kind = rng.choice(["kiq", "kiq", "labels", "labels", "labels", "task_id", "broker", "labels+task_id", "reuse", "reuse+labels"])
+        kind = rng.choice(["kiq", "kiq", "labels", "labels", "labels", "task_id", "broker", "labels+task_id", "reuse", "reuse+labels",
+                           "created_time+labels", "created_cron+labels", "created_time"])
         op: Dict[str, Any] = {"kind": kind}
         if "labels" in kind:
             op["labels"] = gen_labels(rng, names, rng.randint(1, 3))
@@ -137,6 +139,24 @@ def run_c09(spec: Dict[str, Any]) -> "tuple[List[Violation], Dict[str, Any]]":
                 seen.setdefault(message.task_id, []).append({"pre": dict(message.labels)})
                 return message
 
+            def post_execute(self, message: Any, result: Any) -> None:
+                # what later hooks of the same delivery are handed (also after Context.requeue() re-sent it)
+                g = seen.setdefault(message.task_id, [{}])[-1]
+                g["post"] = dict(message.labels)
+                g["post_result"] = dict(result.labels)
+
+        class MemSource(ScheduleSource):
+            def __init__(self) -> None:
+                self.items: List[Any] = []
+
+            async def get_schedules(self) -> List[Any]:
+                return list(self.items)
+
+            async def add_schedule(self, schedule: Any) -> None:
+                self.items.append(schedule)
+
+        mem_source = MemSource()
+
         mws: List[Any] = [RecMw()]
         if spec["use_retry"]:
             mws.append(SimpleRetryMiddleware(default_retry_count=3, default_retry_label=False,
@@ -191,7 +211,15 @@ def run_c09(spec: Dict[str, Any]) -> "tuple[List[Violation], Dict[str, Any]]":
                 k = k.with_broker(broker2)
             n1, n2 = len(sc.kicked), len(broker2.sent)
             try:
-                await k.kiq(f"s{i}")
+                if op["kind"].startswith("created_time"):
+                    # "kick the task as if you were not scheduling it": CreatedSchedule.kiq()
+                    created = await k.schedule_by_time(mem_source, datetime.datetime(2031, 1, 1, tzinfo=datetime.timezone.utc), f"s{i}")
+                    await created.kiq()
+                elif op["kind"].startswith("created_cron"):
+                    created = await k.schedule_by_cron(mem_source, "*/5 * * * *", f"s{i}")
+                    await created.kiq()
+                else:
+                    await k.kiq(f"s{i}")
             except BaseException as exc:  # noqa: BLE001
                 v.append(Violation("send-failed", f"op {i} {op['kind']}: kiq raised {exc!r}"))
                 continue
@@ -254,7 +282,7 @@ def run_c09(spec: Dict[str, Any]) -> "tuple[List[Violation], Dict[str, Any]]":
             obs["deliveries"] += len(got)
             fragile = has_fragile(expect)
             for j, g in enumerate(got):
-                for where in ("pre", "ctx"):
+                for where in ("pre", "ctx", "post", "post_result"):
                     if where in g and not labels_eq(user_labels(g[where]), expect):
                         after = want_acts[j - 1] if j else None
                         kind = "label-changed"
@@ -300,10 +328,11 @@ class C09(Check):
     rule = ("Case = one task declared with 0-4 labels over {int incl. +-2^4000, float incl. +-inf/nan/-0.0/subnormal, "
             "bool, str (unicode, control chars), bytes (empty, non-UTF-8, all 256 byte values)} on a normal or shared "
             "broker; history of 2-8 operations {kiq(), kicker().with_labels(..).kiq(), .with_task_id(), "
-            ".with_broker(), combinations}; every send is followed by 0-3 Context.requeue() / SimpleRetryMiddleware "
+            ".with_broker(), one kicker reused, CreatedSchedule.kiq() after schedule_by_time/cron, combinations}; every send is followed by 0-3 Context.requeue() / SimpleRetryMiddleware "
             "retries through the looping scripted broker and the real Receiver.listen(); formatter in "
             "{Proxy+JSON, Proxy+pickle, JSONFormatter}. Oracle (type(x) is type(y), NaN by isnan, -0.0 by sign): "
-            "labels seen by a pre_execute middleware, by Context inside the task and in every stored result equal "
+            "labels seen by a pre_execute middleware, by Context inside the task, by post_execute (message and result, also "
+            "after the task called requeue) and in every stored result equal "
             "declared+own overrides at every delivery (ignoring _retries / X-Taskiq-requeue); the task's declared "
             "labels are unchanged after every operation; custom task id / broker used by that send only; every "
             "scripted requeue/retry step is actually delivered. Non-trivial: >=1 with_labels op and >=1 "
